@@ -1133,7 +1133,9 @@ func (db *DB) Repair(of Object) (err error) {
 			continue
 		}
 
-		if o, err = db.getByUUID(of, uuid); err != nil {
+		// every object must be read into a fresh Object, otherwise
+		// data of the previously read one leaks into it (json merges maps)
+		if o, err = db.getByUUID(newIterator(db, of, nil).object(), uuid); err != nil {
 			return
 		}
 
